@@ -2286,6 +2286,7 @@ class TargetRegistry:
         self._op_type_map[op_name] = type_map
         self._op_type_tree[op_name] = type_tree
         self._op_auto_map[op_name] = auto_func
+        self._type_cache = {}  # reset type cache ("no handler" may have been memoised for this op)
 
     def _register_builtin_ops(self):
         def _get_iterable_handler(type_obj):
